@@ -1,5 +1,5 @@
 (* C02 - Jerk (T3) move prediction equals the third-order firmware recurrence.  Statements only. *)
-From Plotink Require Import Base.Prelude Spec.Firmware Model.EbbCalc Model.EbbCalcRnd Proofs.EbbCalcProofs Proofs.EbbRndProofs Proofs.EbbClosed Corr.C02.
+From Plotink Require Import Base.Prelude Spec.Firmware Model.EbbCalc Model.EbbCalcRnd Proofs.EbbCalcProofs Proofs.EbbRndProofs Proofs.EbbClosed Corr.C02 Base.Rnd Proofs.RndProofs.
 Open Scope Z_scope.
 
 Theorem C02_exact_dist : forall (T : nat) rate accel jerk acc0, (1 <= T)%nat ->
@@ -63,6 +63,23 @@ Example C02_example : t3_spec_dist 7 (-3) 5 (-7) None = (0, 2147483353) /\ move_
   /\ t3_spec_rate 7 (-3) 5 (-7) = -118 /\ t3_spec_dist 4 0 1 (-1) None = (0, 0).
 Proof. repeat split; vm_compute; reflexivity. Qed.
 
+(* the executable round-to-nearest-even (Base.Rnd.round_ne, compared with CPython's and mpmath's operations on every run:
+   Corr/Rounding.v) meets the hypotheses of both theorems (Proofs/RndProofs.v): no hypothesis about the rounding is left *)
+Theorem C02_rounding_rne : forall (T : nat) rate accel jerk accum, (1 <= T)%nat ->
+  Z.abs rate <= 2 ^ 33 -> Z.abs accel <= 2 ^ 32 -> Z.abs jerk <= 2 ^ 32 -> Z.of_nat T <= 2 ^ 32 -> Z.abs jerk * Z.of_nat T <= 2 ^ 33 ->
+  match accum with Some c => 0 <= c < 2 ^ 31 | None => True end ->
+  move_dist_t3_r (round_ne 103) (Z.of_nat T) rate accel jerk accum = move_dist_t3 (Z.of_nat T) rate accel jerk accum.
+Proof.
+  apply C02_rounding; [intros x y; apply round_ne_comp; lia|intros x R; apply round_ne_exact; [lia|exact R]|].
+  intros x. eapply Qle_trans; [apply (round_ne_err 103 x); lia|]. apply Qmult_le_compat_r; [unfold eps103, Qle; cbn; lia|apply Qabs_nonneg].
+Qed.
+Theorem C02_rate_float_exact_rne : forall time rate accel jerk, 0 <= time <= 2 ^ 32 -> Z.abs rate <= 2 ^ 34 -> Z.abs accel <= 2 ^ 32 -> Z.abs jerk <= 2 ^ 32 ->
+  Z.abs (2 * accel - jerk) * time <= 2 ^ 50 -> Z.abs jerk * time * time <= 2 ^ 50 ->
+  rate_t3_r (round_ne 53) time rate accel jerk = rate_t3 time rate accel jerk.
+Proof.
+  apply C02_rate_float_exact; [intros x y; apply round_ne_comp; lia|intros x R; apply round_ne_exact; [lia|exact R]].
+Qed.
+
 Print Assumptions C02_exact_dist.
 Print Assumptions C02_exact_rate.
 Print Assumptions C02_closed_form.
@@ -70,3 +87,5 @@ Print Assumptions C02_zero_jerk.
 Print Assumptions C02_checker_is_spec.
 Print Assumptions C02_rounding.
 Print Assumptions C02_rate_float_exact.
+Print Assumptions C02_rounding_rne.
+Print Assumptions C02_rate_float_exact_rne.
